@@ -4,11 +4,11 @@ import math
 from fractions import Fraction as Fr
 import numpy as np
 import core
-from core import fq, fz, fnat, flist, fqlist, fqmat, fzlist, fbool
+from core import fq, fz, fnat, flist, fqlist, foqlist, fqmat, fzlist, fbool
 
 ID = 'C01'
 COQ_MODULE = 'Corr_C01'
-COQ_CASE = '(list case)'
+COQ_CASE = '(bool * list case)'
 COQ_CHECK = 'check_all'
 RULE = ('seeded generator: datasets 1-8 rows x 1-4 channels (dyadic k/8 values, positive for poisson), '
         '1-4 condition labels (int/str, list/array, unbalanced, shuffled), four methods, SPD precisions, '
@@ -48,12 +48,13 @@ def gen_dataset(rng, method, n=None, p=None, ncond=None, labels=None):
     return dict(p=p, rows8=rows, labs=labs, intdtype=intd)
 
 
-def well_conditioned(ds, method, remove_mean):
+def well_conditioned(ds, method, use_desc):
     """reject ill-conditioned cases: correlation needs non-constant mean patterns"""
     if method != 'correlation':
         return True
-    for l in set(ds['labs']):
-        rows = [r for r, x in zip(ds['rows8'], ds['labs']) if x == l]
+    labs = ds['labs'] if use_desc else list(range(len(ds['labs'])))
+    for l in set(labs):
+        rows = [r for r, x in zip(ds['rows8'], labs) if x == l]
         m = [Fr(sum(c), 8 * len(rows)) for c in zip(*rows)]
         mm = sum(m) / len(m)
         if sum((x - mm) ** 2 for x in m) < Fr(1, 64):
@@ -78,15 +79,25 @@ def generate(rng, tier):
             c['ds'] = [ds]
         elif kind == 'list':
             k = rng.choice([1, 2, 3])
-            first = gen_dataset(rng, method)
-            dss = [first]
-            for _ in range(k - 1):
-                labs = list(first['labs'])
-                if c['use_desc']:
-                    extra = [rng.choice(labs) for _ in range(rng.randint(0, 2))]
-                    labs = labs + extra
+            if c['use_desc'] and rng.random() < 0.6:
+                # datasets over different subsets of a common pool of conditions
+                pool = rng.sample(range(6), rng.randint(2, 5))
+                p = rng.choice([3, 3, 4]) if method == 'correlation' else rng.choice([1, 2, 3])
+                dss = []
+                for _ in range(k):
+                    sub = pool if rng.random() < 0.4 else rng.sample(pool, rng.randint(2, len(pool)))
+                    labs = list(sub) + [rng.choice(sub) for _ in range(rng.randint(0, 3))]
                     rng.shuffle(labs)
-                dss.append(gen_dataset(rng, method, p=first['p'], labels=labs))
+                    dss.append(gen_dataset(rng, method, p=p, labels=labs))
+            else:
+                first = gen_dataset(rng, method)
+                dss = [first]
+                for _ in range(k - 1):
+                    labs = list(first['labs'])
+                    if c['use_desc']:
+                        labs = labs + [rng.choice(labs) for _ in range(rng.randint(0, 2))]
+                        rng.shuffle(labs)
+                    dss.append(gen_dataset(rng, method, p=first['p'], labels=labs))
             c['ds'] = dss
         else:
             nt = rng.choice([1, 2, 3, 4])
@@ -103,7 +114,7 @@ def generate(rng, tier):
             c['remove_mean'] = False   # calc_rdm_movie has no such option
         p = c['ds'][0]['p']
         c['noise'] = spd(rng, p) if (method == 'mahalanobis' and rng.random() < 0.8) else None
-        if not all(well_conditioned(d, method, c['remove_mean']) for d in eff_datasets(c)):
+        if not all(well_conditioned(d, method, c['use_desc']) for d in eff_datasets(c)):
             continue
         out.append(c)
     return out
@@ -202,13 +213,11 @@ def subcase(c, o, d, k, vals):
                 m = sum(r[ch] for r in rr) / len(rr)
                 rates.add((m + pl * pw) / (1 + pw))
         lg = [(r, math.log(float(r))) for r in sorted(rates)]
-    if any(math.isnan(v) for v in vals):
-        return None
     return ('(mkCase {m} {p} {lab} {rows} {noise} {pl} {pw} {rm} {lg} {olab} {ovals})'.format(
         m=MCOQ[meth], p=fnat(p), lab=fzlist(labs), rows=fqmat(rows), noise=fqmat(noise),
         pl=fq(Fr(c['pl'])), pw=fq(Fr(c['pw'])), rm=fbool(c['remove_mean'] and meth in ('euclidean', 'mahalanobis')),
         lg=flist(lg, lambda t: f'({fq(t[0])}, {fq(t[1])})'),
-        olab=fzlist(out_labels(c, o, d)), ovals=fqlist(vals)))
+        olab=fzlist(out_labels(c, o, d)), ovals=foqlist(vals)))
 
 
 def to_coq(c, o):
@@ -218,26 +227,31 @@ def to_coq(c, o):
     if len(o['vals']) != len(dss):
         return None
     subs = [subcase(c, o, d, k, o['vals'][k]) for k, d in enumerate(dss)]
-    if any(s is None for s in subs):
-        return None
-    return flist(subs)
+    shared = c['kind'] == 'list' and c['use_desc']
+    return f'({fbool(shared)}, {flist(subs)})'
 
 
 # -------------------------------------------------------------------------------- spec oracle
-def spec_values(c, d):
-    """independent float rendering of the property's formulas"""
+def spec_values(c, d, order):
+    """independent float rendering of the property's formulas, for the label order [order];
+    NaN for pairs with a label this dataset does not contain"""
     rows = np.array([[float(x) / 8 for x in r] for r in d['rows8']])
     labs = d['labs'] if c['use_desc'] else list(range(len(rows)))
-    u = sorted(set(labs))
-    means = np.array([rows[[i for i, x in enumerate(labs) if x == l]].mean(axis=0) for l in u])
     p = d['p']
     method = c['method']
-    if c['remove_mean'] and method in ('euclidean', 'mahalanobis'):
-        means = means - means.mean(axis=1, keepdims=True)
+    means = {}
+    for l in set(labs):
+        m = rows[[i for i, x in enumerate(labs) if x == l]].mean(axis=0)
+        if c['remove_mean'] and method in ('euclidean', 'mahalanobis'):
+            m = m - m.mean()
+        means[l] = m
     vals = []
-    for i in range(len(u)):
-        for j in range(i + 1, len(u)):
-            a, b = means[i], means[j]
+    for i in range(len(order)):
+        for j in range(i + 1, len(order)):
+            if order[i] not in means or order[j] not in means:
+                vals.append(np.nan)
+                continue
+            a, b = means[order[i]], means[order[j]]
             if method == 'euclidean' or (method == 'mahalanobis' and c['noise'] is None):
                 v = np.sum((a - b) ** 2) / p
             elif method == 'mahalanobis':
@@ -249,7 +263,7 @@ def spec_values(c, d):
             else:
                 v = 1 - np.corrcoef(a, b)[0, 1]
             vals.append(v)
-    return u, vals
+    return vals
 
 
 def oracle(c, o):
@@ -258,11 +272,19 @@ def oracle(c, o):
     dss = eff_datasets(c)
     if len(o['vals']) != len(dss):
         return f"expected {len(dss)} RDMs, got {len(o['vals'])}"
+    shared = c['kind'] == 'list' and c['use_desc']
+    allp = []
+    for d in dss:
+        for l in sorted(set(d['labs'])):
+            if l not in allp:
+                allp.append(l)
     for k, d in enumerate(dss):
-        u, vals = spec_values(c, d)
-        if out_labels(c, o, d) != u:
-            return f'RDM {k}: condition labels {out_labels(c, o, d)} != sorted distinct labels {u}'
-        if len(vals) != len(o['vals'][k]) or not np.allclose(vals, o['vals'][k], rtol=1e-7, atol=1e-9, equal_nan=False):
+        u = allp if shared else (sorted(set(d['labs'])) if c['use_desc'] else list(range(len(d['labs']))))
+        got = out_labels(c, o, d)
+        if got != u:
+            return f'RDM {k}: condition labels {got} != expected distinct labels {u}'
+        vals = spec_values(c, d, u)
+        if len(vals) != len(o['vals'][k]) or not np.allclose(vals, o['vals'][k], rtol=1e-7, atol=1e-9, equal_nan=True):
             return f'RDM {k}: values {o["vals"][k]} != formula on condition means {vals}'
     # descriptors: dataset descriptors attached to the right RDM
     if c['kind'] in ('single', 'list'):
